@@ -103,12 +103,22 @@ func TestCheck(t *testing.T) {
 		t.Fatalf("register: %v", err)
 	}
 
-	n := int64(cfg.Pick(20000, 250000))
+	n := int64(cfg.Pick(20000, 320000))
 	bbEvery := int64(cfg.Pick(10, 25))
 	rep.Require("outcome/"+clsOK, 1000)
 	rep.Require("bb/"+bbOK, 20)
 	rep.Require("bb_store_sets", 20)
 	rep.Require("bb_store_gets", 20)
+	// the classes of the second revision must have been exercised
+	rep.Require("values_inside_universe", 1000)
+	rep.Require("containers_of_containers", 200)
+	rep.Require("schema_structs/Message", 50)
+	rep.Require("schema_structs/ChatMessagePart", 20)
+	rep.Require("bb_message_cases", 10)
+	rep.Require("values_outside_universe/named-container", 50)
+	rep.Require("values_outside_universe/interface-key", 20)
+	rep.Require("values_outside_universe/array", 20)
+	rep.Require("generated/tagged-key-struct", 10)
 
 	rep.Cases(n, func(idx int64, rng *mon.Rand) {
 		prof := newProfile(rng.Sub("profile"))
